@@ -649,3 +649,18 @@ def value_leaves(body, operand, depth=0):
         sub = value_leaves(body, rhs["op"], depth + 1) if isinstance(rhs, dict) and rhs["k"] == "use" else None
         out.extend(sub if sub else [(bb, rhs)])
     return out
+
+
+def collection_sources(body, operand, depth=10):
+    """Canonical expressions a collection handed to a call is made of: the expression itself for an iterator chain
+    (`xs.iter().filter(..).map(..).collect()`), or — for a Vec built locally with `Vec::new()` + push/extend in a loop — the
+    expressions of everything pushed into it.  Lets a provenance rule read both forms."""
+    e = expr(body, operand, depth)
+    if not re.match(r"^(new\(\)|with_capacity\(|Vec::new\(\))", e):
+        return [e]
+    out = []
+    for t in tree(body):
+        for c in t.calls_to(r"Vec::push$|Vec::extend_from_slice$|Extend(<[^>]*>)?>?::extend$|Vec::insert$|Vec::append$"):
+            if expr(t, c.args[0], depth) == e or re.sub(r"^deref_mut\((.*)\)$", r"\1", expr(t, c.args[0], depth)) == e:
+                out.append(expr(t, c.args[-1], depth))
+    return out or [e]
